@@ -192,6 +192,9 @@ func runC12(p *Prog, r *Report) {
 	c12R5(p, r, comm, ks)
 	c12R6(p, r)
 	pkgLevelStateRule(p, r, "C12.R7")
+	parseEnumCanonicalRule(p, r, "C12.R10")
+	armStoresRule(p, r, "C12.R8", "config.parseMethodLine", allArmKeys("config.parseMethodLine")...)
+	armStoresRule(p, r, "C12.R9", "config.parseConverterLine", allArmKeys("config.parseConverterLine")...)
 }
 
 func armYieldsError(fi *FuncInfo, cc *ast.CaseClause) bool {
